@@ -492,6 +492,8 @@ class dir_archive(archive):
         [memo.pop(k) for k in keys]
         return [self.pop(k) for k in keys]
     def pop(self, key, *value): #XXX: or make DEAD ?
+        if len(value) > 1: # fail (as dict.pop does) before removing anything
+            raise TypeError("pop expected at most 2 arguments, got %s" % str(len(value)+1))
         try:
             memo = {key: self.__getitem__(key)}
             self._rmdir(key)
